@@ -740,8 +740,19 @@ func (g *c09Gen) f(format string, a ...interface{}) {
 func (g *c09Gen) pick(xs []string) string { return xs[g.c.Rng.Intn(len(xs))] }
 
 func (g *c09Gen) comment(indent string) {
+	n := 0
 	for g.c.Rng.Intn(4) == 0 {
 		fmt.Fprintf(&g.sb, "%s# c%d %s\n", indent, g.c.Rng.Intn(1000), g.pick([]string{"note", "é", "\"quoted\"", "# double", "trailing  ", ""}))
+		n++
+	}
+	// a DETACHED block: a blank line between the comment and the element it precedes (the
+	// formatter keeps such a block as a 'scope comment' with its blank line: F27 was about these)
+	if n > 0 && g.c.Rng.Intn(4) == 0 {
+		g.sb.WriteString("\n")
+		g.f("comments:detached-block")
+		if indent == "" {
+			g.f("comments:detached-block:top-level")
+		}
 	}
 }
 
